@@ -190,6 +190,13 @@ class Lexer:
 
     _coding_re = re.compile(r"#.*coding[:=]\s*([-\w.]+).*\r?\n")
 
+    @staticmethod
+    def _is_utf8(encoding):
+        try:
+            return codecs.lookup(encoding).name == "utf-8"
+        except LookupError:
+            return False
+
     def decode_raw_stream(self, text, decode_raw, known_encoding, filename):
         """given string/unicode or bytes/string, determine encoding
         from magic encoding comment, return body as unicode
@@ -205,7 +212,7 @@ class Lexer:
             text = text[len(codecs.BOM_UTF8) :]
             parsed_encoding = "utf-8"
             m = self._coding_re.match(text.decode("utf-8", "ignore"))
-            if m is not None and m.group(1) != "utf-8":
+            if m is not None and not self._is_utf8(m.group(1)):
                 raise exceptions.CompileException(
                     "Found utf-8 BOM in file, with conflicting "
                     "magic encoding comment of '%s'" % m.group(1),
